@@ -284,6 +284,7 @@ func runC14(rc *runCtx) *RunResult {
 					scripts[k][i] = hq
 				}
 				rc.log("burst%d task%d op%d %s", burst, k, i, scripts[k][i].String())
+				rc.inc("q_"+qNames[scripts[k][i].Kind], 1)
 			}
 		}
 		// serial references, with step counting on the first
@@ -462,6 +463,7 @@ func runC14Cold(rc *runCtx) *RunResult {
 		scripts[k] = make([]Op, n)
 		for i := range scripts[k] {
 			scripts[k][i] = drawQuery(g, w.descs, true)
+			rc.inc("q_"+qNames[scripts[k][i].Kind], 1)
 		}
 	}
 	var sub []*Obj
